@@ -54,6 +54,15 @@ type tcase struct {
 	custom func(seq []int) []finding
 	// seqs overrides the destination sequences (e.g. a single dummy for cases that do not use them).
 	noSeq bool
+	// seqs, if set, replaces the destination sequences of the tier for this case.
+	seqs [][]int
+	// maxReads, if set, replaces the default bound on Reads before "no-termination".
+	maxReads int
+	// scriptsFn, if set, replaces scriptsFor (inputs too long to enumerate all chunkings).
+	scriptsFn func(n int) []script
+	// lockstep: with several inputs all inputs use the script with the same index
+	// (instead of the cross product).
+	lockstep bool
 }
 
 type finding struct {
@@ -129,9 +138,13 @@ func drive(tc *tcase, in *inst, seq []int) (rows []crow, trace []readEv, fs []fi
 		return parent, parent.Slice(1, 1+l)
 	}
 	sawEOF := false
+	limit := maxReads
+	if tc.maxReads > 0 {
+		limit = tc.maxReads
+	}
 	for i := 0; ; i++ {
-		if i >= maxReads {
-			add("no-termination", "no EOF after %d Reads", maxReads)
+		if i >= limit {
+			add("no-termination", "no EOF after %d Reads", limit)
 			break
 		}
 		l := seq[i%len(seq)]
@@ -293,6 +306,22 @@ func judgeRows(tc *tcase, in *inst, got []crow) (fs []finding) {
 		class = "rows-lost"
 	case len(got) > len(want):
 		class = "rows-extra"
+	}
+	if len(got) > 24 || len(want) > 24 {
+		// Long streams: the first position where the sequences differ (for the
+		// unordered modes this is only indicative).
+		g, w := fulls(got), fulls(want)
+		i := 0
+		for i < len(g) && i < len(w) && g[i] == w[i] {
+			i++
+		}
+		at := func(x []string) string {
+			if i < len(x) {
+				return x[i]
+			}
+			return "<end>"
+		}
+		return []finding{{class: class, msg: fmt.Sprintf("delivered %d rows, want %d; first difference at row %d: got %s, want %s", len(g), len(w), i, at(g), at(w))}}
 	}
 	return []finding{{class: class, msg: fmt.Sprintf("delivered %v, want %v", fulls(got), fulls(want))}}
 }
